@@ -218,7 +218,8 @@ pub fn run(mut run: Run) -> i32 {
     // the result must be the image of the lattice result: same areas (scaled) and the same per-face membership
     {
         use geo::MapCoords;
-        let maps: [(f64, f64, f64); 3] = [(1000000.0, -1000000.0, 1.0), (0.0, 0.0, 1.0 / 1024.0), (-123456.0, 7.0, 64.0)];
+        // the last two put the whole configuration at the 1e-9 / 1e-6 scale (areas ~1e-18 / 1e-13): nothing in the operation may depend on an absolute size
+        let maps: [(f64, f64, f64); 5] = [(1000000.0, -1000000.0, 1.0), (0.0, 0.0, 1.0 / 1024.0), (-123456.0, 7.0, 64.0), (0.0, 0.0, 1.0 / 1073741824.0), (3.0, -5.0, 1.0 / 4194304.0)];
         run.stage("similar-operands", ns * ns * maps.len(), |idx, acc| {
             let (dx, dy, sc) = maps[idx % maps.len()];
             let (a, b) = (sub[(idx / maps.len()) / ns], sub[(idx / maps.len()) % ns]);
@@ -286,9 +287,11 @@ pub fn run(mut run: Run) -> i32 {
     let members: Vec<&Operand> = ops.iter().filter(|o| o.tag == "PG" || o.tag == "PGH").step_by(if quick { 5 } else { 2 }).collect();
     let nm = members.len();
     let triples = if quick { nm * nm } else { nm * nm * 4 };
-    run.stage("unary-union", triples * 2, |idx, acc| {
+    run.stage("unary-union", triples * 4, |idx, acc| {
         let cw = idx % 2 == 1;
-        let t = idx / 2;
+        // every ring written from its lexicographically least vertex, with the closing coordinate repeated
+        let dup_close = (idx / 2) % 2 == 1;
+        let t = idx / 4;
         let (i, j, k) = (t % nm, (t / nm) % nm, (t / (nm * nm)) * 3 + (t % 7));
         let mut sel = vec![members[i], members[j]];
         if k % nm != i {
@@ -303,7 +306,17 @@ pub fn run(mut run: Run) -> i32 {
             .map(|p| {
                 // consistently wound: every exterior CCW (or CW), holes opposite
                 let orient_ring = |r: &Vec<IP>, ccw: bool| if (area2(r) > 0) == ccw { r.clone() } else { reverse_ring(r) };
-                Polygon::new(ring_ls(&orient_ring(&p.shell, !cw)), p.holes.iter().map(|h| ring_ls(&orient_ring(h, cw))).collect())
+                let write = |r: Vec<IP>| -> LineString<f64> {
+                    if !dup_close {
+                        return ring_ls(&r);
+                    }
+                    let least = (0..r.len()).min_by_key(|&i| r[i]).unwrap();
+                    let mut l = ring_ls(&rotate_ring(&r, least));
+                    let first = l.0[0];
+                    l.0.push(first);
+                    l
+                };
+                Polygon::new(write(orient_ring(&p.shell, !cw)), p.holes.iter().map(|h| write(orient_ring(h, cw))).collect())
             })
             .collect();
         // empty members (an empty polygon first, in the middle, or last) must not change the result
@@ -336,7 +349,7 @@ pub fn run(mut run: Run) -> i32 {
             segs.extend(o.ag.segs());
         }
         let arr = arrangement(&segs, &[]);
-        acc.class(format!("unary n{} cw{} shells{} empty-member-pos{}", polys.len(), cw, uu.0.len().min(3), t % 4));
+        acc.class(format!("unary n{} cw{} dupclose{} shells{} empty-member-pos{}", polys.len(), cw, dup_close, uu.0.len().min(3), t % 4));
         acc.sample(idx, || json!({"members": format!("{:?}", polys), "unary_union": format!("{:?}", uu)}));
         for q in &arr.faces {
             if segs.iter().any(|&(s, e)| d2_hp_seg(q, s, e).f() < DELTA2) {
